@@ -89,6 +89,13 @@ def Mesh.neighbors (h : Nat → UInt64) (tri : Nat → Tri) (m : Mesh) (f : Nat)
   let hits := (triVerts (tri f)).flatMap fun p => ((load h ix p).getD []).filter (· ≠ f)
   (m', (hits.eraseDups).filter fun g => decide (hits.count g > 1))
 
+/-- model2d `Mesh.Neighbors(f)` (a face is a segment `(a,b)`, stored here as the triple `(a,b,b)`):
+every other segment sharing an end point with `f`. -/
+def Mesh.neighbors2 (h : Nat → UInt64) (tri : Nat → Tri) (m : Mesh) (f : Nat) : Mesh × List Nat :=
+  let (m', ix) := m.withIndex h tri
+  let hits := [(tri f).1, (tri f).2.1].flatMap fun p => ((load h ix p).getD []).filter (· ≠ f)
+  (m', hits.eraseDups)
+
 /-- `Mesh.VertexSlice()`. -/
 def Mesh.vertexSlice (h : Nat → UInt64) (tri : Nat → Tri) (m : Mesh) : Mesh × List Nat :=
   let (m', ix) := m.withIndex h tri
